@@ -78,7 +78,7 @@ DESTS = {
     "abs2": ("/jail/cwd", "//jail/dest"),
 }
 EXN_CODES = {"Bad7zFile": 1, "FileExistsError": 2, "IsADirectoryError": 3, "NotADirectoryError": 4,
-             "FileNotFoundError": 5, "ELOOP": 6, "DecompressionError": 7, "AttributeError": 8}
+             "FileNotFoundError": 5, "ELOOP": 6, "DecompressionError": 7, "AttributeError": 8, "TypeError": 9}
 EKINDS = {1: "mkdir", 2: "create", 3: "trunc", 4: "symlink", 5: "unlink", 6: "utime", 7: "chmod"}
 
 LNK_UNIX = 0x20 | 0x400 | 0x8000 | ((0o120000 | 0o777) << 16)
@@ -148,7 +148,7 @@ def effects_of_model(t):
 
 def model_entry(e):
     return [s2l(e["name"]), {"f": 0, "d": 1, "l": 2}[e["kind"]], s2l(e["data"]), 1 if e["empty"] else 0,
-            1 if e.get("mtime", True) else 0, 1 if e.get("chmod", True) else 0]
+            1 if e.get("mtime", True) else 2, 1 if e.get("chmod", True) else 0]
 
 
 def exn_code(e):
@@ -813,6 +813,10 @@ def mk_entries(slots):
 N2 = ["a", "b", "a/b", "./a", "a/..", "../a", "a/../b", "", "/a", "../dest/a", ".//jail/out/f", "a/a"]
 T2 = [".", "..", "../..", "a", "a/..", "/jail/out", "/jail/dest/a", "@prev"]
 N3 = ["a", "b", "a/b", "a/a", "a/b/a", "../dest/b", ""]
+NQ3 = ["a", "a/b", "a/b/a", "b"]                       # quick tier: every ordered triple over these
+KQ3 = [("f", "DATA", False), ("d", "", True), ("l", ".", False), ("l", "..", False), ("l", "a", False)]
+LONG_NAMES = ["../b/../dest", "../b/../dest/a", "a/../../dest/b", "a/b/../../..", "../../jail/dest/a", "b/../../dest",
+              "../dest/../dest/a", ".//jail/dest/../out/a", "./../dest/a", "a/../../b/../dest/a"]
 T3 = [".", "..", "a", "a/..", "@prev"]
 ALL_VARIANTS = [(d, h, i) for d in ("abs", "rel", "none") for h in ("stream", "path") for i in ("empty", "pop")]
 ROT = [("none", "stream", "empty"), ("rel", "path", "empty"), ("abs", "stream", "pop"), ("rel2", "stream", "empty"),
@@ -829,6 +833,10 @@ def gen_jobs(tier, rng):
         else:
             vs = ALL_VARIANTS + [("rel2", "stream", "empty"), ("abs", "stream", "missing"), ("abs2", "stream", "empty")]
         jobs.append({"type": "extract", "entries": mk_entries([(n, k, d, e)]), "cuts": [], "variants": vs, "n": 1})
+    for n in LONG_NAMES:
+        for (k, d, e) in kinds(["..", "a"]):
+            jobs.append({"type": "extract", "entries": mk_entries([(n, k, d, e)]), "cuts": [],
+                         "variants": [("abs", "stream", "empty"), ("none", "stream", "empty"), ("rel", "path", "pop")], "n": 1})
     # ---- two entries, all ordered pairs
     opts2 = slot_options(N2, T2)
     i = 0
@@ -839,7 +847,15 @@ def gen_jobs(tier, rng):
             cuts = [1] if (i % 3 == 0 and not es[0]["empty"] and not es[1]["empty"]) else []
             jobs.append({"type": "extract", "entries": es, "cuts": cuts, "variants": vs, "n": 2})
             i += 1
-    if tier != "quick":
+    if tier == "quick":
+        optsq = [(n, k, d, e) for n in NQ3 for (k, d, e) in KQ3]
+        for s1 in optsq:
+            for s2 in optsq:
+                for s3 in optsq:
+                    i += 1
+                    jobs.append({"type": "extract", "entries": mk_entries([s1, s2, s3]), "cuts": [2] if i % 7 == 0 else [],
+                                 "variants": [("abs", "stream", "empty") if i % 2 else ("rel", "path", "empty")], "n": 3})
+    else:
         opts3 = slot_options(N3, T3)
         for s1 in opts3:
             for s2 in opts3:
